@@ -385,8 +385,16 @@ func (ex *Exec) binop(fr *Frame, in *ssa.BinOp, pc Term) Term {
 			ax := ite(app(SBool, ">=", x, intLit(0)), x, app(SInt, "-", x))
 			ay := ite(app(SBool, ">=", y, intLit(0)), y, app(SInt, "-", y))
 			m := app(SInt, "div", ax, ay)
-			q = ite(eq(app(SBool, ">=", x, intLit(0)), app(SBool, ">=", y, intLit(0))), m, app(SInt, "-", m))
-			q = wrap1(q, rt)
+			gen := wrap1(ite(eq(app(SBool, ">=", x, intLit(0)), app(SBool, ">=", y, intLit(0))), m, app(SInt, "-", m)), rt)
+			// common case first so that the solver sees a plain floor division
+			q = ite(and(app(SBool, ">=", x, intLit(0)), app(SBool, ">", y, intLit(0))), app(SInt, "div", x, y), ex.vc.def("gendiv", gen))
+		}
+		if !yConst {
+			// variable divisor: hand the solver the multiplicative facts it will not derive itself
+			q = ex.vc.def("quo", q)
+			prod := app(SInt, "*", y, q)
+			ex.vc.assume(tTrue, implies(and(app(SBool, ">=", x, intLit(0)), app(SBool, ">", y, intLit(0))),
+				and(app(SBool, "<=", prod, x), app(SBool, "<", x, app(SInt, "+", prod, y)), app(SBool, ">=", q, intLit(0)), app(SBool, "<=", q, x))), "division lemma")
 		}
 		if in.Op == token.QUO {
 			return q
